@@ -441,12 +441,8 @@ W_RESCALE2D = dict(kind="basis2", fams=["given", "given"], K1=1, K2=1, t1=["0", 
 W_TOLONG = dict(kind="tolong", sub="irr1", shapes=[[2], [3]], masks=[[1, 1], [1, 0, 1]], reindex=False, labels="gaps")
 
 
-W_KEYWORDS = dict(kind="basis1", fam="given", K=1, t=["2", "3", "5"], C=[["1"], ["3"]], ck="witness", w0="2", degree=1, stand=False,
-                  Phi=[["1", "2", "1"]])
-
-
 def witness_cases():
-    return [dict(W_UNCENTRED), dict(W_RESCALE2D), dict(W_TOLONG), dict(W_KEYWORDS)]
+    return [dict(W_UNCENTRED), dict(W_RESCALE2D), dict(W_TOLONG)]
 
 
 # --------------------------------------------------------------------------
@@ -509,10 +505,16 @@ def _exact(a):
 
 
 KW_VALUES = dict(squared=True, method_integration="simpson", use_argvals_stand=True)
-# keywords the basis class documents as "Not used here" (or accepts and ignores): a difference that involves one of
-# them is the open finding C14-basis-ignores-keywords, any other difference is a fresh violation
-KW_BY_DESIGN = {"norm": {"use_argvals_stand"}, "normalize": {"use_argvals_stand"}, "mean": {"method_smoothing", "points"},
-                "center": {"method_smoothing", "mean"}, "standardize": {"method_smoothing"}, "inner_product": {"noise_variance", "method_smoothing"}}
+# Keywords the basis class HONOURS are compared across the two representations.  Keywords it documents as "Not used here"
+# (use_argvals_stand in norm/normalize, the smoothing keywords of mean/center/covariance) or that ask the grid twin for
+# another estimator (method_smoothing, a non-zero noise_variance in inner_product) are outside the property: for those
+# the check is only that passing them changes nothing on the basis side.
+KW_IGNORED = [("norm", dict(use_argvals_stand=True), {}), ("norm", dict(use_argvals_stand=True, squared=True), dict(squared=True)),
+              ("norm", dict(use_argvals_stand=True, method_integration="simpson"), dict(method_integration="simpson")),
+              ("normalize", dict(use_argvals_stand=True), {}), ("normalize", dict(use_argvals_stand=True, squared=True), dict(squared=True)),
+              ("mean", dict(method_smoothing="PS"), {}), ("center", dict(method_smoothing="PS"), {}),
+              ("covariance", dict(method_smoothing="LP"), {}), ("inner_product", dict(noise_variance=0.5), {}),
+              ("inner_product", dict(method_smoothing="LP"), {})]
 
 
 def _subsets(keys, upto=2):
@@ -534,18 +536,15 @@ def _keyword_sweep(bf, g, N, w0, two):
         return np.asarray(r, dtype=float).tolist()
 
     calls = []
-    for ks in _subsets(["squared", "method_integration", "use_argvals_stand"]):
+    for ks in _subsets(["squared", "method_integration"]):
         kw = {k: KW_VALUES[k] for k in ks}
         calls += [("norm", kw, None, None), ("normalize", kw, None, None)]
     for ks in _subsets(["method_integration", "use_argvals_stand"]):
         kw = {k: KW_VALUES[k] for k in ks}
         calls += [("rescale", kw, None, None), ("rescale", dict(kw, weights=w0), None, None)]
     calls += [("standardize", dict(center=False), None, None), ("standardize", dict(center=True), None, None)]
-    # the Gram matrix of CENTRED data: the integration rule is forwarded, the noise variance is accepted and ignored
-    calls += [("inner_product", dict(method_integration="simpson"), "center", dict(noise_variance=0)),
-              ("inner_product", dict(noise_variance=0.5), "center", None)]
-    if not two:
-        calls += [("mean", dict(method_smoothing="PS"), None, None), ("center", dict(method_smoothing="PS"), None, None)]
+    # the Gram matrix of CENTRED data with another integration rule (grid twin: noise_variance=0, as the property observes it)
+    calls += [("inner_product", dict(method_integration="simpson"), "center", dict(noise_variance=0))]
     res = []
     for meth, kw, pre, gextra in calls:
         row = dict(meth=meth, kw={k: (v if not isinstance(v, float) else float(v)) for k, v in kw.items()})
@@ -558,6 +557,19 @@ def _keyword_sweep(bf, g, N, w0, two):
                     if side == "g" and gextra:
                         k2.update(gextra)
                     row[side] = val(getattr(o, meth)(**k2))
+            except ModuleNotFoundError:
+                row[side] = "skip:cholesky-fallback"
+            except Exception as e:
+                row[side] = "error:" + err_class(e)
+        res.append(row)
+    # documented-ignored keywords: passing them must change nothing on the basis side
+    for meth, kw, base in KW_IGNORED:
+        row = dict(meth=meth, kw=dict(kw), mode="self")
+        for side, k2 in (("b", kw), ("g", base)):
+            try:
+                with warnings.catch_warnings():
+                    warnings.simplefilter("ignore")
+                    row[side] = val(getattr(bf, meth)(**k2))
             except ModuleNotFoundError:
                 row[side] = "skip:cholesky-fallback"
             except Exception as e:
@@ -1256,10 +1268,21 @@ def _oracle_basis(case, impl):
         bad("history", "BasisFunctionalData.*", f"history raised {impl['hist_error']}")
     for row in impl.get("kw") or []:
         meth, kw, b, g = row["meth"], row["kw"], row.get("b"), row.get("g")
-        causes = ["keyword_ignored_by_design"] if set(kw) & KW_BY_DESIGN.get(meth, set()) else []
+        causes = []
         if two and meth in ("rescale", "standardize") and b == "error:ValueError":
             causes.append("diag_of_4d_array")
         entry = "BasisFunctionalData." + meth
+        if row.get("mode") == "self":
+            # same object, same method, with and without a keyword the class documents as unused
+            if isinstance(b, str) or isinstance(g, str):
+                if b != g and not str(b).startswith("skip:"):
+                    bad("ignored_keywords", entry, f"{meth}({kw}) gives {str(b)[:40]} but without the unused keyword {str(g)[:40]}")
+            else:
+                B_, G_ = np.asarray(b, dtype=float), np.asarray(g, dtype=float)
+                same = B_.shape == G_.shape and bool(np.all((np.abs(B_ - G_) <= 1e-12 * np.maximum(np.abs(G_), 1e-300)) | (~np.isfinite(B_) & ~np.isfinite(G_))))
+                if not same:
+                    bad("ignored_keywords", entry, f"{meth}({kw}): a keyword documented as not used changes the result on the basis side")
+            continue
         if isinstance(b, str) and b.startswith("skip:"):
             continue
         if isinstance(b, str) or isinstance(g, str):
